@@ -21,6 +21,12 @@ func init() {
 			"enumerated refusal conditions (NO-EXTRA-REFUSAL). Values of the per-address conjunction over slices beyond the sticky-false structure.",
 		Run: runC10,
 		Mutants: []Mutant{
+			{Name: "last-node-selector-wins", File: "internal/config/config.go",
+				Old: "\t\tfor _, s := range labelSelectors {\n\t\t\tnodeLabels := labels.Set(node.Labels)\n\t\t\tif s.Matches(nodeLabels) {\n\t\t\t\tres[node.Name] = true\n\t\t\t\tcontinue OUTER\n\t\t\t}\n\t\t}\n\t}\n\treturn res, nil",
+				New: "\t\tselected := false\n\t\tfor _, s := range labelSelectors {\n\t\t\tnodeLabels := labels.Set(node.Labels)\n\t\t\tselected = s.Matches(nodeLabels)\n\t\t}\n\t\tif selected {\n\t\t\tres[node.Name] = true\n\t\t\tcontinue OUTER\n\t\t}\n\t}\n\treturn res, nil", Expect: "every-matching-node"},
+			{Name: "node-update-filter-needs-condition-on-both-sides", File: "internal/k8s/controllers/node_controller.go",
+				Old: "\t\t\tif k8snodes.IsNetworkUnavailable(oldNode) != k8snodes.IsNetworkUnavailable(newNode) {\n\t\t\t\treturn true\n\t\t\t}\n",
+				New: "\t\t\tif len(oldNode.Status.Conditions) > 0 && k8snodes.IsNetworkUnavailable(oldNode) != k8snodes.IsNetworkUnavailable(newNode) {\n\t\t\t\treturn true\n\t\t\t}\n", Expect: "NODE-EVENTS"},
 			{Name: "endpoint-scan-stops-at-foreign-node", File: "speaker/bgp_controller.go",
 				Old: "\t\t\tif filterNode(node) {\n\t\t\t\tcontinue", New: "\t\t\tif filterNode(node) {\n\t\t\t\tbreak", Expect: "STICKY-FALSE"},
 			{Name: "unknown-network-status-counts-as-unavailable", File: "internal/k8s/nodes/nodes.go",
@@ -58,6 +64,9 @@ func runC10(p *chk.Prog, r *chk.Report) {
 	// the node predicates are re-evaluated when they change: a node event that flips network availability or the
 	// exclusion label re-syncs every service (RESYNC, shared with C09)
 	c09Resync(p, r)
+	// "an advertisement of the pool selects this node" is computed by config.selectedNodes (SELECT, shared with C08)
+	c08Select(p, r)
+	nodeEventsRule(p, r)
 }
 
 func c10Guards(p *chk.Prog, r *chk.Report) {
